@@ -27,6 +27,13 @@ def adi_cases(seed, count, tag, max_side=6):
         D = 8 * q * dy * dy * dx * dx
         big = D + 2 * p * max(dy, dx) ** 2 * 4 * kmax
         c["S"] = max(2, min(16, int(math.log2((2 ** 29) / (big * 9.0)))))
+        if rng.random() < 0.5:
+            # the diffusivity of one eroder object is changed through its setters between steps,
+            # coming back to earlier values
+            ks = rng.randint(1, 4)
+            ka = [rng.randint(1, 4) for _ in range(n)]
+            pool = [dict(Ks=ks), dict(Ka=ka), dict(Ks=ks), dict(Ks=rng.randint(1, 4)), dict(Ka=[ks] * n), dict(Ka=ka)]
+            c["hist"] = [pool[0]] + [rng.choice(pool) for _ in range(rng.randint(2, 5))]
         if rng.random() < 0.6:
             c["lin"] = dict(a=rng.randint(-3, 3), b=rng.randint(-3, 3), x=[rng.randint(0, 6) for _ in range(n)],
                             y=[rng.randint(-4, 4) for _ in range(n)])
